@@ -98,7 +98,7 @@ Print Assumptions dry_run_never_calls_user_code.
 
 (* non-vacuity *)
 Example loop_runs :
-  let cfg := config_of (mkCfgData false false true TTrue [] [] [] 99 false None) in
+  let cfg := config_of (mkCfgData false false true TTrue [] [] [] 99 false None []) in
   let '(_, _, sts, ev) :=
     steps_loop cfg (mkState false [[]]) false false 7 (mkLoop true false false)
                [mkStep KPass 1; mkStep KFail 2; mkStep KUndefined 3; mkStep KPass 4] in
@@ -117,7 +117,7 @@ Proof. exact run_calls_follow_the_document. Qed.
 Print Assumptions the_calls_of_a_run_follow_the_document.
 
 Example inherited_backgrounds_come_first :
-  let cfg := mkCfgData false false true TTrue [] [] [] 99 false None in
+  let cfg := mkCfgData false false true TTrue [] [] [] 99 false None [] in
   let f := mkFeature 1 [] (Some [mkStep KPass 1])
              [FRule (mkRule 2 [] (Some [mkStep KPass 2]) [SScen (mkScen 3 [] [mkStep KPass 4; mkStep KFail 5; mkStep KPass 6])]);
               FItem (SScen (mkScen 7 [] [mkStep KPass 8]))] in
